@@ -750,6 +750,14 @@ func (ix *inliner) stmt(s ast.Stmt) bool {
 			// a call in the condition is evaluated once: hoist it in front of the if
 			return ix.hoist(s, x.Cond)
 		}
+	case *ast.DeferStmt:
+		// defer h(args) with a new helper h: the helper's body becomes the deferred closure
+		if h := ix.helperOf(x.Call); h != nil {
+			if text, ok := ix.deferExpansion(x, h); ok {
+				ix.emit(h, text, s.Pos(), s.End())
+				return true
+			}
+		}
 	case *ast.DeclStmt:
 		if gd, ok := x.Decl.(*ast.GenDecl); ok && gd.Tok == token.VAR && len(gd.Specs) == 1 {
 			if vs, ok := gd.Specs[0].(*ast.ValueSpec); ok {
@@ -1956,4 +1964,180 @@ func assignedIn(h *inlineHelper, o types.Object) bool {
 		return true
 	})
 	return hit
+}
+
+// deferExpansion: `defer h(a, &flag)` with a new, result-less helper h becomes
+//
+//	__t := a; defer func() { <body of h, parameters spelled as their arguments> }()
+//
+// Arguments are evaluated where the defer statement stands, as Go does: `&x` of a local is spelled in place (the address
+// is the same later), a plain identifier that is assigned exactly once in the enclosing function is used directly, anything
+// else is captured in a temporary first. `return` in the helper is `return` of the closure. The deferred closure with a
+// captured flag is the form the transaction rules know.
+func (ix *inliner) deferExpansion(d *ast.DeferStmt, h *inlineHelper) (string, bool) {
+	call := d.Call
+	sig := h.sig
+	if sig.Results().Len() != 0 || sig.TypeParams().Len() > 0 || sig.Variadic() || call.Ellipsis.IsValid() || len(call.Args) != sig.Params().Len() || h.lit != nil {
+		return "", false
+	}
+	if h.pkg != ix.p {
+		return "", false
+	}
+	ix.badImport = false
+	qual := ix.qualifier()
+	htf := h.pkg.Fset.File(h.file.Pos())
+	hfname := h.pkg.Fset.Position(h.file.Pos()).Filename
+	hsrc := ix.src
+	if hfname != ix.tf.Name() {
+		b, err := ix.readFile(hfname)
+		if err != nil || len(b) != htf.Size() {
+			return "", false
+		}
+		hsrc = b
+	}
+	enclosing := ix.enclosingFunc(d.Pos())
+	assignedOnce := func(id *ast.Ident) bool {
+		o := ix.p.TypesInfo.Uses[id]
+		if o == nil || enclosing == nil {
+			return false
+		}
+		n := 0
+		ast.Inspect(enclosing, func(x ast.Node) bool {
+			switch y := x.(type) {
+			case *ast.AssignStmt:
+				for _, l := range y.Lhs {
+					if li, ok := l.(*ast.Ident); ok && (ix.p.TypesInfo.Uses[li] == o || ix.p.TypesInfo.Defs[li] == o) {
+						n++
+					}
+				}
+			case *ast.UnaryExpr:
+				if li, ok := y.X.(*ast.Ident); ok && y.Op == token.AND && ix.p.TypesInfo.Uses[li] == o {
+					n += 2 // address taken: may change behind our back
+				}
+			}
+			return true
+		})
+		if _, isParam := o.(*types.Var); isParam && n == 0 {
+			return true // a parameter or receiver that is never assigned
+		}
+		return n == 1
+	}
+	*ix.counter++
+	var pre strings.Builder
+	var fixes []identFix
+	bind := func(pobj types.Object, arg ast.Expr, ptype types.Type, k int) {
+		text := ix.text(arg.Pos(), arg.End())
+		direct := false
+		switch a := arg.(type) {
+		case *ast.Ident:
+			direct = assignedOnce(a)
+		case *ast.UnaryExpr:
+			if id, ok := a.X.(*ast.Ident); ok && a.Op == token.AND {
+				if _, isVar := ix.p.TypesInfo.Uses[id].(*types.Var); isVar {
+					direct = true
+				}
+			}
+		case *ast.BasicLit:
+			direct = true
+		}
+		if !direct {
+			tmp := fmt.Sprintf("__inl%d_a%d", *ix.counter, k)
+			fmt.Fprintf(&pre, "%s := (%s)(%s); _ = %s; ", tmp, types.TypeString(ptype, qual), text, tmp)
+			text = tmp
+		} else {
+			text = "(" + text + ")"
+		}
+		if pobj == nil {
+			return
+		}
+		ast.Inspect(h.body, func(n ast.Node) bool {
+			if id, ok := n.(*ast.Ident); ok && h.pkg.TypesInfo.Uses[id] == pobj {
+				fixes = append(fixes, identFix{id, text})
+			}
+			return true
+		})
+	}
+	// parameters must not be assigned in the helper (they are spelled as expressions)
+	k := 0
+	var pnames []string
+	for _, fl := range h.ftype.Params.List {
+		for _, nm := range fl.Names {
+			po := h.pkg.TypesInfo.Defs[nm]
+			if po != nil && assignedIn(h, po) {
+				return "", false
+			}
+			bind(po, call.Args[k], sig.Params().At(k).Type(), k)
+			pnames = append(pnames, nm.Name)
+			k++
+		}
+		if len(fl.Names) == 0 {
+			bind(nil, call.Args[k], sig.Params().At(k).Type(), k)
+			k++
+		}
+	}
+	if sig.Recv() != nil {
+		sel, ok := call.Fun.(*ast.SelectorExpr)
+		if !ok {
+			return "", false
+		}
+		selection := ix.p.TypesInfo.Selections[sel]
+		if selection == nil || len(selection.Index()) != 1 || selection.Kind() != types.MethodVal {
+			return "", false
+		}
+		_, recvPtr := sig.Recv().Type().(*types.Pointer)
+		_, xPtr := ix.p.TypesInfo.TypeOf(sel.X).Underlying().(*types.Pointer)
+		if recvPtr != xPtr {
+			return "", false
+		}
+		if r := h.recv; r != nil && len(r.List) == 1 && len(r.List[0].Names) == 1 {
+			ro := h.pkg.TypesInfo.Defs[r.List[0].Names[0]]
+			if ro != nil && assignedIn(h, ro) {
+				return "", false
+			}
+			bind(ro, sel.X, sig.Recv().Type(), 99)
+		} else {
+			bind(nil, sel.X, sig.Recv().Type(), 99)
+		}
+	} else if isQualifiedCallee(call) {
+		return "", false
+	}
+	cf, ok := ix.captureFixes(call.Pos(), h, nil, nil)
+	if !ok || ix.badImport {
+		return "", false
+	}
+	fixes = append(fixes, cf...)
+	sort.Slice(fixes, func(i, j int) bool { return fixes[i].id.Pos() < fixes[j].id.Pos() })
+	var body strings.Builder
+	pos := htf.Offset(h.body.Lbrace) + 1
+	for _, fx := range fixes {
+		o := htf.Offset(fx.id.Pos())
+		if o < pos {
+			continue
+		}
+		body.Write(hsrc[pos:o])
+		body.WriteString(fx.name)
+		pos = htf.Offset(fx.id.End())
+	}
+	body.Write(hsrc[pos:htf.Offset(h.body.Rbrace)])
+	bp := htf.Position(h.body.Lbrace + 1)
+	return pre.String() + "defer func() { " + fmt.Sprintf("/*line %s:%d:%d*/", hfname, bp.Line, bp.Column) + body.String() + "\n}()", true
+}
+
+// enclosingFunc: the function declaration or literal body around pos in the current file.
+func (ix *inliner) enclosingFunc(pos token.Pos) ast.Node {
+	var best ast.Node
+	ast.Inspect(ix.f, func(n ast.Node) bool {
+		switch x := n.(type) {
+		case *ast.FuncDecl:
+			if x.Body != nil && x.Body.Pos() <= pos && pos < x.Body.End() {
+				best = x.Body
+			}
+		case *ast.FuncLit:
+			if x.Body.Pos() <= pos && pos < x.Body.End() {
+				best = x.Body
+			}
+		}
+		return true
+	})
+	return best
 }
